@@ -201,6 +201,15 @@ package core
 //@   call Errorf#1 assert [over-full] len(res.bundleEntries.BundleEntries) > bundleEntriesPerFile
 //@   call Errorf#2 assert [not-full] len(res.bundleEntries.BundleEntries) != bundleEntriesPerFile
 //@   call Errorf#2 assert [not-last] res.idx + 1 != bundle.BundleDescriptor.BundleEntriesFileCount
+// each file list is copied to the place its index gives it, whatever the order of arrival, and the length of the
+// result is decided by the LAST list (the one with the highest index, the only one that may be short) - not by the
+// one that happens to arrive last: any other list, the done signal and errors leave the length alone
+//@   call copy#1 assert [placed-at-its-index] startIdx == int(res.idx) * int(bundleEntriesPerFile) && $1 == res.bundleEntries.BundleEntries && arr($0) == arr(bundle.BundleEntries) && off($0) == off(bundle.BundleEntries) + startIdx
+//@   only copy 1
+//@   only append 0
+//@   loop 1 step [only-a-received-list-changes-the-length] rcvd(bundleEntriesC) == prev(rcvd(bundleEntriesC)) ==> len(bundle.BundleEntries) == prev(len(bundle.BundleEntries))
+//@   loop 1 step [any-list-but-the-last-leaves-the-length] res.idx + 1 != bundle.BundleDescriptor.BundleEntriesFileCount ==> len(bundle.BundleEntries) == prev(len(bundle.BundleEntries))
+//@   loop 1 step [the-last-list-trims-what-it-lacks] rcvd(bundleEntriesC) == prev(rcvd(bundleEntriesC)) + 1 && res.idx + 1 == bundle.BundleDescriptor.BundleEntriesFileCount ==> len(bundle.BundleEntries) == prev(len(bundle.BundleEntries)) - (bundleEntriesPerFile - len(res.bundleEntries.BundleEntries))
 
 // ---- generated-path filtering at upload (C04) ------------------------------------------------------
 //@ func (*Bundle).skipFile
@@ -327,6 +336,29 @@ package core
 //@   call DownloadDescriptor#1 bind de = $ret0
 //@   send output#2 assert [a-failed-read-is-reported-as-it-is] de_set && de != nil && $val.err == de
 //@   send output#4 assert [named-as-key] $val.label.Name == apc.LabelName
+
+// applying a function to every listed object: a failure of the function fails the whole call, also when the
+// background listing has already ended without error (rename and delete do their work inside the function)
+//@ func ListBundlesApply
+//@   call apply#1 bind ae = $ret0
+//@   loop 1 invariant [no-failure-so-far] !ae_set || ae == nil
+//@   ensures [a-failed-callback-fails-the-call] ae_set && ae != nil ==> result != nil
+//@ func ListLabelsApply
+//@   call apply#1 bind ae = $ret0
+//@   loop 1 invariant [no-failure-so-far] !ae_set || ae == nil
+//@   ensures [a-failed-callback-fails-the-call] ae_set && ae != nil ==> result != nil
+//@ func ListReposApply
+//@   call apply#1 bind ae = $ret0
+//@   loop 1 invariant [no-failure-so-far] !ae_set || ae == nil
+//@   ensures [a-failed-callback-fails-the-call] ae_set && ae != nil ==> result != nil
+//@ func ListDiamondsApply
+//@   call apply#1 bind ae = $ret0
+//@   loop 1 invariant [no-failure-so-far] !ae_set || ae == nil
+//@   ensures [a-failed-callback-fails-the-call] ae_set && ae != nil ==> result != nil
+//@ func ListSplitsApply
+//@   call apply#1 bind ae = $ret0
+//@   loop 1 invariant [no-failure-so-far] !ae_set || ae == nil
+//@   ensures [a-failed-callback-fails-the-call] ae_set && ae != nil ==> result != nil
 
 // listing repositories: every key yields one event, except a key whose descriptor does not exist
 //@ func getRepoAsync
@@ -541,7 +573,19 @@ package core
 
 // index chunks: every chunk written by one run gets an index not used before by this run nor by the
 // run it resumes
+// a cancelled upload (the scan failed, or the caller gave up) is not a success: the error group's Wait in
+// PurgeBuildReverseIndex reports what the uploader returns, and a nil there makes a truncated index look complete
 //@ func uploader$1
+//@   recv ctx.Done() flag cancelled
+//@   recv cctx.Done() flag chunkFailed
+// (context.Context: once Done is closed, Err is not nil - assumed, standard library)
+//@   call Err#1 assume $ret0 != nil
+//@   call Err#2 assume $ret0 != nil
+// (the loops go round only while neither has happened: either one ends the function at once)
+//@   loop 1 invariant [still-running] !cancelled && !chunkFailed
+//@   loop 2 invariant [still-running-2] !cancelled && !chunkFailed
+//@   ensures [a-cancelled-upload-is-not-a-success] cancelled ==> result != nil
+//@   ensures [a-failed-chunk-is-not-a-success] chunkFailed ==> result != nil
 //@   ghost start = options.indexStart
 //@   call chunkUploader#1 bind used1 = $chunkIndex
 //@   call chunkUploader#2 bind used2 = $chunkIndex
